@@ -220,11 +220,18 @@ func (j *rjob) Execute(ctx context.Context) error {
 // ---------------------------------------------------------------------------
 
 type recLocker struct {
-	mu   sync.Mutex
-	held atomic.Bool
+	mu      sync.Mutex
+	held    atomic.Bool
+	latency time.Duration // > 0: acquiring takes that long (a distributed lock)
 }
 
-func (l *recLocker) Lock()   { l.mu.Lock(); l.held.Store(true) }
+func (l *recLocker) Lock() {
+	if l.latency > 0 {
+		time.Sleep(l.latency)
+	}
+	l.mu.Lock()
+	l.held.Store(true)
+}
 func (l *recLocker) Unlock() { l.held.Store(false); l.mu.Unlock() }
 
 // recQueue checks that every mutating / reading call of the scheduler on the queue happens with the
@@ -262,6 +269,36 @@ func (q *recQueue) ScheduledJobs(m []quartz.Matcher[quartz.ScheduledJob]) ([]qua
 }
 func (q *recQueue) Size() (int, error) { return q.inner.Size() }
 func (q *recQueue) Clear() error       { q.check("Clear"); return q.inner.Clear() }
+
+// faultQueue fails the next Push when armed (a transient failure of a persistent queue), or -- in free-running
+// mode -- every n-th Push.
+type faultQueue struct {
+	inner    quartz.JobQueue
+	failNext atomic.Bool
+	every    int64
+	pushes   atomic.Int64
+	failed   atomic.Int64
+}
+
+var errTransient = errors.New("transient queue failure")
+
+func (q *faultQueue) Push(j quartz.ScheduledJob) error {
+	n := q.pushes.Add(1)
+	if q.failNext.CompareAndSwap(true, false) || (q.every > 0 && n%q.every == 0) {
+		q.failed.Add(1)
+		return errTransient
+	}
+	return q.inner.Push(j)
+}
+func (q *faultQueue) Pop() (quartz.ScheduledJob, error)                    { return q.inner.Pop() }
+func (q *faultQueue) Head() (quartz.ScheduledJob, error)                   { return q.inner.Head() }
+func (q *faultQueue) Get(k *quartz.JobKey) (quartz.ScheduledJob, error)    { return q.inner.Get(k) }
+func (q *faultQueue) Remove(k *quartz.JobKey) (quartz.ScheduledJob, error) { return q.inner.Remove(k) }
+func (q *faultQueue) ScheduledJobs(m []quartz.Matcher[quartz.ScheduledJob]) ([]quartz.ScheduledJob, error) {
+	return q.inner.ScheduledJobs(m)
+}
+func (q *faultQueue) Size() (int, error) { return q.inner.Size() }
+func (q *faultQueue) Clear() error       { return q.inner.Clear() }
 
 // copyQueue hands out fresh copies (new ScheduledJob, new JobDetail, new options) from every call
 // and stores a copy of what it is given, so nothing the scheduler holds aliases what is in the queue.
